@@ -121,11 +121,57 @@ let main_exec () =
   let prev_opt_id = ref "" in
   let cur_tbl : (string * int * string, rrec) Hashtbl.t = Hashtbl.create 64 in
   let pviol = ref 0 in
+  let starts_tbl : (string * int, imatch list) Hashtbl.t = Hashtbl.create 64 in
+  let starts_hay = ref "" in
   let inconclusive = ref 0 in
   let viol prop detail =
     incr pviol;
     Printf.printf "PROPVIOL prop=%s case=%s pat=%s flags=%s hay=%s start=%d detail=%s\n" prop !cur_id !cur_pat !cur_flags !hayhex !start detail in
   let base_id id = String.sub id 0 (String.length id - 1) in
+  (* C09: iteration = repeated first-match with the lastIndex advance rule; evaluated on the
+     implementation's own results across the start offsets of one haystack *)
+  let check_c09 () =
+    if Hashtbl.length starts_tbl > 0 then begin
+      let bytes = Array.of_list (List.map int_of_n (parse_hex !starts_hay)) in
+      let len = Array.length bytes in
+      let is_boundary p = p = len || (p < len && (bytes.(p) < 128 || bytes.(p) >= 192)) in
+      let rec next_boundary p = if p >= len then len + 1 else if is_boundary (p + 1) then p + 1 else next_boundary (p + 1) in
+      let nchars = ref 0 in
+      for p = 0 to len - 1 do if is_boundary p then incr nchars done;
+      let saved_start = !start and saved_hay = !hayhex in
+      hayhex := !starts_hay;
+      Hashtbl.iter (fun (engine, st) ms ->
+        start := st;
+        (* invariants of one sequence *)
+        let cursor = ref st and ok = ref true and cnt = ref 0 in
+        List.iter (fun (s, e, caps) ->
+          incr cnt;
+          if not (s >= !cursor && s <= e && e <= len && is_boundary s && is_boundary e) then ok := false;
+          List.iter (fun c -> match c with Some (a, b) -> if not (a <= b && b <= len && is_boundary a && is_boundary b) then ok := false | None -> ()) caps;
+          cursor := if e > s then e else next_boundary e) ms;
+        if not !ok then viol "C09" (Printf.sprintf "%s:sequence-not-ordered-or-out-of-range:%s" engine (show_matches ms));
+        if !cnt > !nchars + 1 then viol "C09" (Printf.sprintf "%s:more-matches-than-positions" engine);
+        (* unfold: tail of the sequence = the sequence started at the advanced cursor *)
+        (match ms with
+         | (s, e, _) :: rest ->
+           let c = if e > s then e else next_boundary e in
+           (match Hashtbl.find_opt starts_tbl (engine, c) with
+            | Some ms2 -> if ms2 <> rest then viol "C09" (Printf.sprintf "%s:tail<>iteration-from-cursor-%d:%s/%s" engine c (show_matches rest) (show_matches ms2))
+            | None -> if c > len && rest <> [] then viol "C09" (Printf.sprintf "%s:match-after-end" engine));
+           (* the first match does not depend on where in [st, s] the search started *)
+           for s1 = st + 1 to s do
+             match Hashtbl.find_opt starts_tbl (engine, s1) with
+             | Some (m2 :: _) -> if m2 <> List.hd ms then viol "C09" (Printf.sprintf "%s:first-match-differs-from-start-%d" engine s1)
+             | Some [] -> viol "C09" (Printf.sprintf "%s:first-match-missed-from-start-%d" engine s1)
+             | None -> ()
+           done
+         | [] ->
+           (* nothing from st: then nothing from any later start *)
+           Hashtbl.iter (fun (e2, s2) ms2 -> if e2 = engine && s2 > st && ms2 <> [] then viol "C09" (Printf.sprintf "%s:match-from-%d-but-none-from-earlier-start" engine s2)) starts_tbl)
+      ) starts_tbl;
+      start := saved_start; hayhex := saved_hay;
+      Hashtbl.reset starts_tbl
+    end in
   let flush_group () =
     let g = List.rev !group in
     group := [];
@@ -152,6 +198,8 @@ let main_exec () =
      | Some a, Some b -> if both_ok a b && not (same a b) then viol "C13" (Printf.sprintf "bt8=%s:%s/bta=%s:%s" a.status (show_matches a.ms) b.status (show_matches b.ms))
      | _ -> ());
     (* C03: compare with the optimized twin (case ids <k>o then <k>n) *)
+    if g <> [] && !starts_hay <> !hayhex then begin check_c09 (); starts_hay := !hayhex end;
+    List.iter (fun r -> if r.status = "ok" then Hashtbl.replace starts_tbl (r.engine, !start) r.ms) g;
     List.iter (fun r ->
       Hashtbl.replace cur_tbl (!hayhex, !start, r.engine) r;
       if String.length !cur_id > 0 && !cur_id.[String.length !cur_id - 1] = 'n' && base_id !cur_id = !prev_opt_id then
@@ -160,6 +208,7 @@ let main_exec () =
         | None -> ()) g in
   let end_case () =
     flush_group ();
+    check_c09 ();
     if String.length !cur_id > 0 && !cur_id.[String.length !cur_id - 1] = 'o' then begin
       Hashtbl.reset prev_opt; Hashtbl.iter (fun k v -> Hashtbl.replace prev_opt k v) cur_tbl; prev_opt_id := base_id !cur_id
     end;
